@@ -11,3 +11,21 @@ func dbgf(format string, args ...interface{}) {
 		fmt.Printf("DBG "+format+"\n", args...)
 	}
 }
+
+func init() {
+	dbgHook = func(w *World) {
+		if os.Getenv("YDBG") != "leaves" {
+			return
+		}
+		serve := w.Func(yubiPkg, "ServeAgent")
+		w.Focus(serve)
+		for _, cv := range w.invokeOfDeep(serve, "AddHardCert") {
+			fmt.Println("ADD call in", cv.Parent().Name(), "arg0", w.Expr(cv.Call.Args[0]))
+			_, h, idx := w.asCallResult(cv.Call.Args[0])
+			fmt.Println(" asCallResult", h, idx, "transparent", h != nil && w.transparent(h))
+			for _, lf := range w.Leaves(cv.Call.Args[0], cv) {
+				fmt.Println(" LEAF", w.Expr(lf.Val))
+			}
+		}
+	}
+}
